@@ -45,7 +45,15 @@ type c15Case struct {
 	AckUnk   bool
 	AckErr   bool
 	Registry []c15Handler
+	Split    bool // group kind: the first handler forms one group, the others a second group of the same processor
 	Hook     bool // the processor is configured with an OnHandle hook that calls the handler with the message's context
+}
+
+func (cs c15Case) grp(k int) int {
+	if cs.Split && k > 0 {
+		return 2
+	}
+	return 1
 }
 
 func c15Marshaler(cs c15Case) cqrs.CommandEventMarshaler {
@@ -137,6 +145,11 @@ func runC15(c *Ctx) error {
 					i++
 					cases = append(cases, c15Case{Kind: kind, Codec: []string{"json", "proto"}[i%2], NameGen: []string{"default", "struct", "named"}[i%3],
 						AckUnk: au, AckErr: ae, Registry: reg, Hook: i%4 < 2})
+					if kind == "group" && len(reg) >= 2 {
+						i++
+						cases = append(cases, c15Case{Kind: kind, Codec: []string{"json", "proto"}[i%2], NameGen: []string{"default", "struct", "named"}[i%3],
+							AckUnk: au, AckErr: ae, Registry: reg, Hook: i%4 < 2, Split: true})
+					}
 				}
 			}
 		}
@@ -146,7 +159,7 @@ func runC15(c *Ctx) error {
 		m := c15Marshaler(cs)
 		reg := []map[string]any{}
 		for k, h := range cs.Registry {
-			reg = append(reg, map[string]any{"h": k + 1, "type": m.Name(c15Value(cs, h.Type, 0)), "fails": h.Fails})
+			reg = append(reg, map[string]any{"h": k + 1, "type": m.Name(c15Value(cs, h.Type, 0)), "fails": h.Fails, "grp": cs.grp(k)})
 		}
 		runs[i] = T.NewRun(cs.Kind+"/"+cs.Codec+"/"+cs.NameGen, map[string]any{"kind": cs.Kind, "flags": map[string]any{"ackUnknown": cs.AckUnk, "ackErrors": cs.AckErr}, "registry": reg})
 		runs[i].Key = fmt.Sprintf("%+v", cs)
@@ -283,11 +296,17 @@ func c15Run(r *tr.Run, cs c15Case) {
 			}),
 		})
 		if err == nil {
-			var gh []cqrs.GroupEventHandler
-			for _, h := range handlers {
-				gh = append(gh, h)
+			for g := 1; g <= 2 && err == nil; g++ {
+				var gh []cqrs.GroupEventHandler
+				for k, h := range handlers {
+					if cs.grp(k) == g {
+						gh = append(gh, h)
+					}
+				}
+				if len(gh) > 0 {
+					err = p.AddHandlersGroup(fmt.Sprintf("r%d-group%d", r.ID, g), gh...)
+				}
 			}
-			err = p.AddHandlersGroup(fmt.Sprintf("r%d-group", r.ID), gh...)
 		}
 	}
 	if err != nil {
@@ -304,6 +323,7 @@ func c15Run(r *tr.Run, cs c15Case) {
 		return
 	}
 	seq := 0
+	var prev *message.Message
 	feed := func(on int, name string, wellformed bool, val any, payload []byte) bool {
 		seq++
 		id := fmt.Sprintf("r%d-m%d", r.ID, seq)
@@ -313,6 +333,11 @@ func c15Run(r *tr.Run, cs c15Case) {
 		}
 		sent[id] = val
 		consumed[id] = msg
+		if seq%2 == 0 && prev != nil {
+			// the message travels with a context that was derived from the handling of another message
+			msg.SetContext(cqrs.CtxWithOriginalMessage(context.Background(), prev))
+		}
+		prev = msg
 		r.Emit("msg", "m", id, "name", name, "wellformed", wellformed, "on", on+1)
 		if !subs[on].Emit("t", msg) {
 			r.Emit("hung", "what", "emit")
